@@ -246,6 +246,20 @@ def cases(ctx):
                         "src": f"*={org:#08x}\nnop\n" + (w % ("rts\n.include 'moved.s'\nnop\n")) + "end:\n.dl end\n",
                         "twin": {"src": f"*={org:#08x}\nnop\n" + (w % ("rts\n" + run + "nop\n")) + "end:\n.dl end\n", "rom": rom, "files": {}},
                         "spec": {"t": "twin", "labels": True}})
+    # a run that occurs several times moved into ONE file that is brought in by several .include directives (siblings in the
+    # main file, in an included file, and both)
+    rep_run = "php\n{\nzz_rl:\nlda.b #0x21\n.dw zz_rl & 0xFFFF\n}\nplp\n"
+    for rom, org in (("low", 0x018000), ("high", 0x410000)):
+        flat = f"*={org:#08x}\n" + rep_run + "nop\n" + rep_run + "end:\n.dl end\n"
+        inc = ".include 'rep.s'\n"
+        for name, main, files in (
+                ("siblings", f"*={org:#08x}\n" + inc + "nop\n" + inc + "end:\n.dl end\n", {"rep.s": rep_run}),
+                ("in-included", f"*={org:#08x}\n.include 'outer.s'\nend:\n.dl end\n", {"rep.s": rep_run, "outer.s": inc + "nop\n" + inc}),
+                ("main-and-included", f"*={org:#08x}\n" + inc + ".include 'outer.s'\nend:\n.dl end\n", {"rep.s": rep_run, "outer.s": "nop\n" + inc}),
+                ("in-blocks", f"*={org:#08x}\n{{\n" + inc + "}\nnop\n{\n" + inc + "}\nend:\n.dl end\n", {"rep.s": rep_run})):
+            twin = flat if name != "in-blocks" else f"*={org:#08x}\n{{\n" + rep_run + "}\nnop\n{\n" + rep_run + "}\nend:\n.dl end\n"
+            out.append({"kind": f"include-twice:{name}", "rom": rom, "files": files, "src": main,
+                        "twin": {"src": twin, "rom": rom, "files": {}}, "spec": {"t": "twin", "labels": True}})
     # stand-alone mnemonics (implied and accumulator forms) in every letter case
     for rom, org in (("low", 0x018000),):
         lower = "rts\nclc\ntax\nphp\ninc\nasl\ndec\nlsr\nrol\nror\nnop\nxba\n"
